@@ -41,11 +41,24 @@ def Val.isNone : Val → Bool
   | .none => true
   | _ => false
 
-/-- Outcome of a call as its caller sees it: a value, a `Fault` with its fault code
-    (without namespace prefix), or any other exception class escaping. -/
+/-- A `spyne.Fault` as its receiver sees it: fault code (without the envelope-namespace prefix),
+    fault string (`none` where the text is spyne's own and never compared), fault actor ("" when
+    there is none) and the detail document. A plain string is the fault with that code and
+    nothing else. -/
+structure Flt where
+  code : String
+  str : Option String := Option.none
+  actor : String := ""
+  detail : Val := Val.none
+  deriving Repr, Inhabited
+
+instance : Coe String Flt := ⟨fun c => { code := c }⟩
+
+/-- Outcome of a call as its caller sees it: a value, a `Fault`, or any other exception class
+    escaping. -/
 inductive Res (α : Type) where
   | ok (a : α)
-  | fault (code : String)
+  | fault (f : Flt)
   | exc (cls : String)
   deriving Repr, Inhabited
 
@@ -53,7 +66,7 @@ inductive Res (α : Type) where
     `spyne.Fault`. -/
 inductive Result where
   | value (v : Val)
-  | fault (code : String)
+  | fault (f : Flt)
   | error
   deriving Repr, Inhabited
 
